@@ -47,8 +47,18 @@ Rules ==
   {h @@ [args |-> <<>>, arg_paths |-> <<>>] : h \in Headers}
   \cup {h @@ [args |-> SortArgs(a), arg_paths |-> SortArgs(p)] : h \in SomeHeaders, a \in ArgSets, p \in ArgPathSets}
 
-VARIABLE rule
-Init == rule \in Rules
-Next == UNCHANGED rule
-Emit == PrintT(<<"CASE", ToJson([ev |-> "RuleStr", rule |-> rule, canon |-> RuleStr(rule)])>>)
+(* Builder call sequences (C22: "every match rule constructible through the API"): 4-5 calls over 4 indices, so every
+   sequence repeats an index or gives them out of order; the value of call j is the letter a+j (paths: /a+j). *)
+OpIdx == {0, 1, 2, 5}
+OpSeq(k, n, idxs) == [j \in 1..n |-> [k |-> k, i |-> idxs[j], v |-> IF k = "arg" THEN <<96 + j>> ELSE <<47, 96 + j>>]]
+OpSeqs == {OpSeq("arg", 4, ix) : ix \in [1..4 -> OpIdx]} \cup {OpSeq("arg", 5, ix) : ix \in [1..5 -> OpIdx]}
+          \cup {OpSeq("argpath", 4, ix) : ix \in [1..4 -> OpIdx]}
+RuleOfOps(o) == [args |-> ArgsOfOps(OpsOfKind(o, "arg")), arg_paths |-> ArgsOfOps(OpsOfKind(o, "argpath"))]
+
+VARIABLES rule, ops
+Init == \/ rule \in Rules /\ ops = <<>>
+        \/ \E o \in OpSeqs : ops = o /\ rule = RuleOfOps(o)
+Next == UNCHANGED <<rule, ops>>
+Emit == PrintT(<<"CASE", ToJson([ev |-> "RuleStr", rule |-> IF ops = <<>> THEN rule ELSE rule @@ [ops |-> ops],
+                                 canon |-> RuleStr(rule)])>>)
 =============================================================================
